@@ -336,7 +336,7 @@ impl Driver {
             }
             loop {
                 iters += 1;
-                if iters > 3000 {
+                if iters > 1000 {
                     break 'shrink;
                 }
                 let cand = tree.current();
